@@ -474,9 +474,14 @@ func c03Header(r *vRand, n int, noise bool) string {
 				m = ""
 			case 3:
 				m = vPick(r, []string{" ", "\t", "a", "=", "=1", "a="})
-			case 4:
+			case 4, 6, 7:
 				if i > 0 {
-					m = ms[r.Intn(len(ms))] // duplicate member
+					// duplicate key: the exact member, or the same key behind optional whitespace and/or with another
+					// value (what a proxy folding two header lines with ", " produces)
+					m = ms[r.Intn(len(ms))]
+					if k2, _, ok := strings.Cut(strings.TrimLeft(m, " \t"), "="); ok && r.Intn(3) != 0 {
+						m = vPick(r, []string{"", " ", "\t", "  ", " \t"}) + k2 + "=" + c03Val(r, false) + vPick(r, []string{"", "", " ", "\t"})
+					}
 				}
 			case 5:
 				m = strings.Replace(m, "=", vPick(r, []string{" =", "= ", "==", ""}), 1)
